@@ -127,7 +127,14 @@ class FnUninit:
         self.undef_uses = []
         STRICT = {"icmp", "fcmp", "add", "sub", "mul", "udiv", "sdiv", "urem", "srem", "fadd", "fsub", "fmul", "fdiv", "br", "switch",
                   "getelementptr", "ret", "sitofp", "uitofp", "fptoui", "fptosi"}
+        live_b = set(); st_ = [fn.entry.id]
+        while st_:
+            x_ = st_.pop()
+            if x_ in live_b: continue
+            live_b.add(x_)
+            st_ += [s_.id for s_ in fn.bmap[x_].succs if (x_, s_.id) not in self.dead]
         for i in fn.insts():
+            if i.block.id not in live_b: continue                 # (behind a branch on a constant: never executed)
             if i.op in STRICT and any(o["k"] == "undef" for o in i.ops): self.undef_uses.append(i)
             elif i.op == "store" and i.ops[0]["k"] == "undef":
                 # the padding bytes of a struct that SROA copies piecewise (fields as values, the gap as undef): not a use of a local
